@@ -21,6 +21,7 @@ import gens
 import lit
 from props import c14
 
+BLOCK_RE = re.compile(r'\{[^\}]+\}')
 NODE_RE = re.compile(r'\[#[^\]]*\]')
 BRACKET_RE = re.compile(r'\[[^\]$><!#][^\]]*\]')
 DESC_RE = re.compile(r'\[[$><!][^\]]*\]')
@@ -323,6 +324,66 @@ def frag_faults(valid):
     return out
 
 
+VIRT_SKIP_RE = re.compile(r'\|\d+|%\d+|\d|\[[$><!][^\]]*\]')
+
+
+def virtual_sites(text):
+    """(position, inserted text) at which a node #ZZ attached by an order-0 bond only (a VIRTUAL node: it needs no
+    fragment, resolve.py 245-251) can be written into a graph text: before the first node, as a branch after a node
+    token (behind its multiplier, ring markers and bonding descriptors), at the end"""
+    sites = []
+    if text.startswith('[#'):
+        sites.append((0, '[#ZZ].'))
+    for m in NODE_RE.finditer(text):
+        i = m.end()
+        while True:
+            mm = VIRT_SKIP_RE.match(text, i)
+            if not mm:
+                break
+            i = mm.end()
+        sites.append((i, '.([#ZZ])'))
+    sites.append((len(text), '.[#ZZ]'))
+    return sorted(set(sites))
+
+
+def multi_frag_faults(valid):
+    """the undefined name on SEVERAL nodes of one level.  (a) the valid string first gets a virtual node #ZZ (still a
+    valid string: `valid` of the case is that string and must resolve), then a real node is renamed to ZZ - the virtual
+    one earlier or later in node order; (b) two node tokens of the valid string renamed together (one of them may be
+    virtual in the generated string).  The verdict is the same as for one node: a non-virtual ZZ without fragment."""
+    out = []
+    for pi, a, b in graph_texts(valid):
+        if pi == len(valid['parts']) - 1:
+            continue
+        text = valid['parts'][pi][a:b]
+        toks = list(NODE_RE.finditer(text))
+
+        def renamed(m):
+            inner = m.group(0)[2:-1]
+            return '[#ZZ' + inner[len(inner.split(';')[0]):] + ']'
+        for pos, ins in virtual_sites(text):
+            vtext = text[:pos] + ins + text[pos:]
+            for m in toks:
+                if m.start() >= pos:
+                    new = text[:pos] + ins + text[pos:m.start()] + renamed(m) + text[m.end():]
+                    rel = 'virtual-first'
+                else:
+                    new = text[:m.start()] + renamed(m) + text[m.end():pos] + ins + text[pos:]
+                    rel = 'virtual-later'
+                out.append({'kind': 'frag', 'fault': 3, 's': splice(valid, pi, a, b, new), 'level': pi,
+                            'where': [pi, m.start()], 'multi': rel, 'virtual_at': pos,
+                            'valid': splice(valid, pi, a, b, vtext),
+                            'in_unit': bool(pi == 0 and valid.get('unit_start') is not None and a + m.start() >= valid['unit_start'])})
+        for i in range(len(toks)):
+            for j in range(i + 1, len(toks)):
+                mi, mj = toks[i], toks[j]
+                new = text[:mi.start()] + renamed(mi) + text[mi.end():mj.start()] + renamed(mj) + text[mj.end():]
+                out.append({'kind': 'frag', 'fault': 3, 's': splice(valid, pi, a, b, new), 'level': pi,
+                            'where': [pi, mi.start(), mj.start()], 'multi': 'pair',
+                            'in_unit': bool(pi == 0 and valid.get('unit_start') is not None and a + mj.start() >= valid['unit_start'])})
+    return out
+
+
 def annot_sites(valid):
     """(lk, part, start, end, head, entries)"""
     sites = []
@@ -379,15 +440,20 @@ def annot_faults(valid):
 
 
 def all_faults(valid):
-    return ring_faults(valid) + frag_faults(valid) + annot_faults(valid)
+    return ring_faults(valid) + frag_faults(valid) + multi_frag_faults(valid) + annot_faults(valid)
 
 
 # ----------------------------------------------------------------------------- implementation
-def resolve_all(s, aa, record=None):
+def resolve_all(s, aa, record=None, dicts=None):
+    """from_string(s).resolve_all(); with `dicts` (fragment dicts the caller already holds, one per fragment block of
+    s) the documented constructor from_fragment_dicts(<first block of s>, dicts) is used instead"""
     from cgsmiles.resolve import MoleculeResolver
     try:
         with contextlib.redirect_stdout(io.StringIO()):
-            r = MoleculeResolver.from_string(s, last_all_atom=aa)
+            if dicts is None:
+                r = MoleculeResolver.from_string(s, last_all_atom=aa)
+            else:
+                r = MoleculeResolver.from_fragment_dicts(BLOCK_RE.findall(s)[0], dicts, last_all_atom=aa)
             if record is not None:
                 orig = r.resolve_disconnected_molecule
 
@@ -405,7 +471,6 @@ def resolve_all(s, aa, record=None):
 
 
 # ----------------------------------------------------------------------------- call histories
-BLOCK_RE = re.compile(r'\{[^\}]+\}')
 HIST_MODES = ('arg', 'item_lib', 'item_resolver')
 
 
@@ -425,6 +490,22 @@ def history_for(valid_parts, aa, level, mode):
         nxt = [n for n, _, _ in fragment_defs(valid_parts[fpart + 1])] if fpart + 1 < len(valid_parts) else ['X']
         extra = '{#ZZ=[$][#%s][$]}' % nxt[0]
     return {'mode': mode, 'frag_text': valid_parts[fpart], 'index': level, 'all_atom': all_atom, 'extra': extra}
+
+
+def shared_dicts_history(case):
+    """history mode 'frag_dicts' (faults in the base block): the user reads the fragment blocks of the string ONCE
+    (read_fragment_strings), resolves the VALID molecule (in which #ZZ, if present, is virtual) with these dicts
+    through from_fragment_dicts, and then resolves the faulty molecule with the SAME dicts.  Returns (error of the
+    history or None, the dicts)."""
+    from cgsmiles.resolve import MoleculeResolver
+    try:
+        with contextlib.redirect_stdout(io.StringIO()):
+            dicts = MoleculeResolver.read_fragment_strings(BLOCK_RE.findall(case['s'])[1:], last_all_atom=case['aa'])
+            r = MoleculeResolver.from_fragment_dicts(BLOCK_RE.findall(case['valid'])[0], dicts, last_all_atom=case['aa'])
+            r.resolve_all()
+        return None, dicts
+    except Exception as exc:
+        return c14.exc_desc(exc), None
 
 
 def play_history(case):
@@ -462,10 +543,20 @@ def with_histories(rng, valid, faults, limit):
         pick = rng.sample(frag, min(len(frag), limit - 2)) + pick[len(frag):][:2]
     for f in pick:
         level = f['level'] if f['kind'] == 'frag' else rng.randrange(0, max(1, len(valid['parts']) - 1))
+        if f['kind'] == 'frag' and level == 0 and rng.random() < 0.5:
+            out.append(dict(f, history={'mode': 'frag_dicts'}))
+            continue
         h = history_for(valid['parts'], valid['aa'], level, rng.choice(HIST_MODES))
         if h:
             out.append(dict(f, history=h))
     return out
+
+
+def mk_case(f, v, vs):
+    """a fault of the valid string v (text vs); faults that first extend the valid string carry their own `valid`"""
+    d = dict(f, aa=v['aa'])
+    d.setdefault('valid', vs)
+    return d
 
 
 class C20(common.Prop):
@@ -503,9 +594,19 @@ class C20(common.Prop):
         unit = {'parts': ['{[#A;q=1][#B][#A;w=2]([#B;foo=bar][#A])|3}', '{#A=[$]CC[$][$],#B=[$]CO[$]}'], 'aa': True, 'unit_start': 13}
         zero = {'parts': ['{[#A]0[#B][#A]%00}', '{#A=[$]CC[$],#B=[$]CO[$]}'], 'aa': True}
         zerocg = {'parts': ['{[#A][#B]}', '{#A=[$][#X]%0[#Y][#Z]0[$],#B=[$][#X][$]}'], 'aa': False}
-        for v in (base, cg, three, cg2, unit, zero, zerocg):
+        # the undefined name on a virtual node AND on a bonded node, either order, in a branch, in a multiplied unit, in
+        # a ring of order-0 bonds, in a coarse fragment of a three-level string
+        virt = {'parts': ['{[#A][#B][#A]}', '{#A=[$]CC[$],#B=[$]CO[$]}'], 'aa': True}
+        virt2 = {'parts': ['{[#A].([#B])[#C]([#A][#B])|2}', '{#A=[$]CC[$],#B=[$]N,#C=[$]C([$])C[$]}'], 'aa': True, 'unit_start': 14}
+        virt3 = {'parts': ['{[#S]1.2[#S].3[#R]1.[#T]23.[#S][#T]}', '{#S=OC[$]C[$]O,#R=[$]OC[$]CO,#T=[$]C}'], 'aa': True}
+        for v in (base, cg, three, cg2, unit, zero, zerocg, virt, virt2, virt3):
             for f in all_faults(v):
-                out.append(dict(f, aa=v['aa'], valid='.'.join(v['parts'])))
+                out.append(mk_case(f, v, '.'.join(v['parts'])))
+        # histories that re-use one list of fragment dicts (from_fragment_dicts)
+        for v in (virt, virt2, virt3, base, three):
+            for f in frag_faults(v) + multi_frag_faults(v):
+                if f['level'] == 0:
+                    out.append(dict(mk_case(f, v, '.'.join(v['parts'])), history={'mode': 'frag_dicts'}))
         # call histories: a fragment library is built from the very fragment list of the string first
         lib = {'parts': ['{[#A][#A]([#A])[#A]}', '{#A=[$]CC[$][$]}'], 'aa': True}
         for v in (lib, cg, three, base):
@@ -528,28 +629,37 @@ class C20(common.Prop):
             if resolve_all(vs, v['aa']) is not None:
                 continue                      # not a valid string for the code: outside the domain
             fs = all_faults(v)
+            vok = {}
+            for f in fs:
+                if 'valid' in f and f['valid'] not in vok:
+                    vok[f['valid']] = resolve_all(f['valid'], v['aa']) is None
+            fs = [f for f in fs if vok.get(f.get('valid'), True)]     # the extended valid string must itself resolve
             if len(fs) > per:
                 # keep every kind represented, positions sampled
                 by = {}
                 for f in fs:
-                    by.setdefault((f['kind'], f['fault'], f.get('m') == 0), []).append(f)
+                    by.setdefault((f['kind'], f['fault'], f.get('m') == 0, f.get('multi') or ''), []).append(f)
                 fs = []
                 for k in sorted(by):
                     fs += rng.sample(by[k], min(len(by[k]), max(4, per // len(by))))
             fs = fs + with_histories(rng, v, fs, 8 if not ctx.thorough() else 40)
             for f in fs:
-                out.append(dict(f, aa=v['aa'], valid=vs))
+                out.append(mk_case(f, v, vs))
         return out[:n]
 
     def run_impl(self, case):
         if resolve_all(case['valid'], case['aa']) is not None:
             return {'skip': 'baseline string is not valid for the code'}
+        dicts = None
         if case.get('history'):
-            herr = play_history(case)
+            if case['history']['mode'] == 'frag_dicts':
+                herr, dicts = shared_dicts_history(case)
+            else:
+                herr = play_history(case)
             if herr is not None:
                 return {'skip': 'the history itself failed: ' + herr}
         rec = [] if case['kind'] == 'frag' else None
-        exc = resolve_all(case['s'], case['aa'], record=rec)
+        exc = resolve_all(case['s'], case['aa'], record=rec, dicts=dicts)
         out = {'exc': exc}
         if case['kind'] == 'annot':
             cands = set(c14.candidates(case['text']))
@@ -644,6 +754,8 @@ class C20(common.Prop):
         hist = 'history:%s:' % case['history']['mode'] if case.get('history') else ''
         if case.get('in_unit'):
             hist += 'in-multiplied-unit:'
+        if case.get('multi'):
+            hist += 'name-on-several-nodes:%s:' % case['multi']
         return '%sfault%d%s:%dlevels:%s' % (hist, case['fault'], where, levels, impl['exc'] or 'GRAPH')
 
 
